@@ -17,7 +17,7 @@ RULE = ("conditions = operator x (state value on the goal boundary, one step eit
         "and negative x value types (int, float, negative, zero, string, boolean); grid enumerated exhaustively, "
         "conjunctions sampled; conditions with clock clauses inside two clones of one moot framer entered at different ticks; distinct = distinct rendered condition + state values; non-trivial = the condition was "
         "evaluated at least once by a running framer (framer reached tick 1)")
-RULE = __import__("vf.core", fromlist=["rule_add"]).rule_add(RULE, 'also two clones of one moot entered `delay` ticks apart, each with its own elapsed / recurred')
+RULE = __import__("vf.core", fromlist=["rule_add"]).rule_add(RULE, 'also two clones of one moot entered `delay` ticks apart, each with its own elapsed / recurred; states read from a named field beside indirect goals written without one')
 META = {"engine": "A floscript", "technique": "runtime monitor of transition tick vs direct evaluation of the written comparison",
         "level_text": "Each generated condition guards a transition in a real framer run; the tick of the transition (or its absence) "
                       "is compared with Python evaluation of the comparison as the property words it.",
